@@ -14,7 +14,7 @@ EncOk(ev) ==
   /\ ev.digest = DigestText(ev.draft, e.top)
 
 \* every Read result is the step the MiDec machine takes
-\* a read logged with n = 0 is a DRAIN (io.Copy: through WriteTo if the decoder offers one, else repeated Read):
+\* a read logged with n = -1 is a DRAIN (io.Copy: through WriteTo if the decoder offers one, else repeated Read):
 \* everything the machine still delivers, and how it ends
 RECURSIVE Drain(_, _, _)
 Drain(stream, s, acc) == LET r == MiRead(stream, s, 65536) IN
@@ -23,7 +23,7 @@ Drain(stream, s, acc) == LET r == MiRead(stream, s, 65536) IN
 RECURSIVE ReadsOk(_, _, _, _)
 ReadsOk(stream, s, reads, i) ==
   IF i > Len(reads) THEN TRUE
-  ELSE LET r == IF reads[i].n = 0 THEN Drain(stream, s, <<>>) ELSE MiRead(stream, s, reads[i].n) IN
+  ELSE LET r == IF reads[i].n < 0 THEN Drain(stream, s, <<>>) ELSE MiRead(stream, s, reads[i].n) IN
        /\ r.res = reads[i].res
        /\ r.data = reads[i].data
        /\ r.res = "err" \/ ReadsOk(stream, r.s, reads, i + 1)
